@@ -10,7 +10,9 @@ Gms/Props/C10.lean say when it can be reached.
   the guard is present;
 * `internal/strings.Unquote` (JSON_UNQUOTE): Gms.JsonQuote.unquote (Impl) / unquoteSpec;
 * `mysql_db.validateMysqlNativePassword`: the byte loop `for i := range scramble { scramble[i] ^=
-  authResponse[i] }` over the 20-byte SHA-1 with the emptiness check that precedes it.
+  authResponse[i] }` over the 20-byte SHA-1 with the checks that precede it (emptiness, hex, and —
+  since the repair d3c438db7 — `len(authResponse) != len(scramble)`); the pre-fix code is kept as
+  `nativePasswordPreFix`.
 -/
 import Gms.Model.RangeMap
 import Gms.Model.JsonQuote
@@ -42,20 +44,32 @@ inductive Auth where
   | crash        -- index out of range in the byte loop
   deriving DecidableEq, Repr
 
-/-- Go: `validateMysqlNativePassword(authResponse, salt, stored)`. `scramble` = SHA1(salt ‖ hash)
-(always 20 bytes; a parameter here), `hashOk` = the stored string is non-empty hex. -/
+/-- Go: `validateMysqlNativePassword(authResponse, salt, stored)` (as repaired by commit d3c438db7:
+a response whose length differs from the scramble's is rejected before the byte loop).
+`scramble` = SHA1(salt ‖ hash) (always 20 bytes; a parameter here), `hashOk` = the stored string
+is non-empty hex. -/
 def nativePassword (scramble resp : List Nat) (hashOk : Bool) : Auth :=
+  if resp.isEmpty then .rejected
+  else if !hashOk then .rejected
+  else if resp.length ≠ scramble.length then .rejected
+  else match xorLoop scramble resp with
+    | some _ => .compared
+    | none => .crash
+
+/-- The code before the repair: no length check in front of the byte loop. Kept only to state
+`C10.fixed_native_password_short_response`. -/
+def nativePasswordPreFix (scramble resp : List Nat) (hashOk : Bool) : Auth :=
   if resp.isEmpty then .rejected
   else if !hashOk then .rejected
   else match xorLoop scramble resp with
     | some _ => .compared
     | none => .crash
 
-/-- Spec: a response of the wrong length is rejected. -/
+/-- Spec: only a response of exactly the scramble's length is compared; nothing panics. -/
 def nativePasswordSpec (scramble resp : List Nat) (hashOk : Bool) : Auth :=
   if resp.isEmpty then .rejected
   else if !hashOk then .rejected
-  else if resp.length < scramble.length then .rejected
+  else if resp.length ≠ scramble.length then .rejected
   else .compared
 
 def authClass : Auth → String
